@@ -7,3 +7,4 @@ for p in C01 C02 C03 C04 C05 C06 C07 C08 C09 C10 C11 C12 C13 C14 C15 C16 C17 C18
   echo "$out" | tail -1
   [ $rc -ne 0 ] && { echo "$out" | grep -E "^VIOLATION|^failing|^corresp|^  (op|impl|model)" | head -12; cp replays/$p-* /tmp/ 2>/dev/null; }
 done
+exit 0
